@@ -125,16 +125,7 @@ def check(ctx, rep):
                            "%s is tested and then used under the future's lock elsewhere (check-then-act), but is written here without it: a cancel() between the test and the use sees None" % t[2], where_of(fi, e.node), trace_of(p, e.seq))
     rep.count("writes of test-then-use fields", nw, 4)
 
-    # the dispatcher itself: each callback called once, exceptions contained, list dropped
-    ps, it = ctx.paths(inv, fut, depth=0)
-    for p in ps:
-        if p.status == "raise":
-            rep.ob("R-SETTER", "_me_invoke_callbacks contains callback exceptions", False, "an exception from a callback escapes the dispatcher", where_of(inv), trace_of(p))
-        resets = [e for e in p.evs("store") if q.self_field(e.d["target"], P.cbs)]
-        if p.status == "return":
-            rep.ob("R-SETTER", "_me_invoke_callbacks drops the callbacks after dispatch", len(resets) == 1 and q.deref(p, resets[0].d["value"]) == ("list", ()), "the callback list is not reset after dispatch (a second dispatch would call them again)", where_of(inv), trace_of(p))
-    loops = [e for p in ps for e in p.evs("loop") if e.d[0] == "enter"]
-    rep.ob("R-SETTER", "_me_invoke_callbacks iterates the private list", bool(loops) and all(roles.container_of(e.d[1]) == P.CBS for e in loops), "", where_of(inv))
+    dispatch_rule(ctx, rep)
 
     addcb_rule(ctx, rep)
 
@@ -367,6 +358,33 @@ def addcb_rule(ctx, rep):
             ok = same_hold and not direct and apps[0].d["args"] == (("param", adc.params[1]),)
             rep.ob("R-ADDCB", key + ": append in the same critical section", ok, "on a pending future the callback must be appended under the same hold of the lock as the done() test and not called (appended: %d, called: %d)" % (len(apps), len(direct)), where_of(adc), trace_of(p))
     rep.require(kinds == {True, False}, "add_done_callback: expected a done and a pending path")
+
+
+
+def dispatch_rule(ctx, rep):
+    """the callback dispatcher of _Future: each callback called once, exceptions contained per callback, list dropped"""
+    rep.rule("R-DISPATCH", "the callback dispatcher walks the private callback list, contains the exception of each callback separately (the later ones still run), never raises, and empties the list afterwards")
+    P = roles.proto(ctx)
+    inv = P.dispatch
+    fut = P.fut
+    # the dispatcher itself: each callback called once, exceptions contained, list dropped
+    ps, it = ctx.paths(inv, fut, depth=0)
+    for p in ps:
+        if p.status == "raise":
+            rep.ob("R-DISPATCH", "%s contains callback exceptions" % inv.name, False, "an exception from a callback escapes the dispatcher", where_of(inv), trace_of(p))
+        resets = [e for e in p.evs("store") if q.self_field(e.d["target"], P.cbs)]
+        if p.status == "return":
+            rep.ob("R-DISPATCH", "%s drops the callbacks after dispatch" % inv.name, len(resets) == 1 and q.deref(p, resets[0].d["value"]) == ("list", ()), "the callback list is not reset after dispatch (a second dispatch would call them again)", where_of(inv), trace_of(p))
+    # one raising callback must not end the dispatch: after its exception is caught the loop goes on
+    for p in ps:
+        for c in p.evs("catch"):
+            ent = [l for l in p.evs("loop") if l.d[0] == "enter" and l.seq < c.seq]
+            if not ent:
+                continue
+            on = [l for l in p.evs("loop") if l.seq > c.seq and l.node is ent[-1].node and l.d[0] in ("back", "exit") and l.d[1] != "break"]
+            rep.ob("R-DISPATCH", "%s: a raising callback does not stop the dispatch" % inv.name, bool(on), "the exception of one callback is caught outside the loop over the callbacks: the callbacks registered after it never run (a chained future waiting on this one stays pending forever)", where_of(inv, c.node), trace_of(p, c.seq))
+    loops = [e for p in ps for e in p.evs("loop") if e.d[0] == "enter"]
+    rep.ob("R-DISPATCH", "%s iterates the private list" % inv.name, bool(loops) and all(roles.container_of(e.d[1]) == P.CBS for e in loops), "", where_of(inv))
 
 
 
